@@ -15,8 +15,14 @@ package c14
 
 import (
 	"fmt"
+	"strings"
+	"sync"
+	"sync/atomic"
 	"testing"
 	"time"
+
+	"github.com/twmb/franz-go/pkg/kgo"
+	"verifharness/internal/groupwl"
 
 	"verifharness/internal/conswl"
 	"verifharness/internal/e2e"
@@ -107,6 +113,78 @@ func judgeFetch(r *vh.Run, res *conswl.Result, mode string) {
 	}
 }
 
+// ghook counts fetch-hook calls per record for the group scenarios (rebalances invalidate sessions
+// and discard buffered fetches while other polls are dispatching their deferred hooks).
+type ghook struct {
+	mu       sync.Mutex
+	state    map[*kgo.Record]int
+	problems []string
+	nb, nu   atomic.Int64
+	n        atomic.Uint64
+}
+
+func (h *ghook) OnFetchRecordBuffered(r *kgo.Record) {
+	h.nb.Add(1)
+	h.mu.Lock()
+	if st := h.state[r]; st != 0 && len(h.problems) < 10 {
+		h.problems = append(h.problems, fmt.Sprintf("fetch-hook-buffered-twice|record %s/%d@%d buffered again (state %d)", r.Topic, r.Partition, r.Offset, st))
+	}
+	h.state[r] = 1
+	h.mu.Unlock()
+}
+
+func (h *ghook) OnFetchRecordUnbuffered(r *kgo.Record, polled bool) {
+	h.nu.Add(1)
+	if h.n.Add(1)%23 == 0 {
+		time.Sleep(2 * time.Millisecond) // a hook that takes a moment: widens the dispatch window
+	}
+	h.mu.Lock()
+	switch h.state[r] {
+	case 0:
+		if len(h.problems) < 10 {
+			h.problems = append(h.problems, fmt.Sprintf("fetch-hook-unbuffered-without-buffered|record %s/%d@%d (polled=%v)", r.Topic, r.Partition, r.Offset, polled))
+		}
+	case 2:
+		if len(h.problems) < 10 {
+			h.problems = append(h.problems, fmt.Sprintf("fetch-hook-unbuffered-twice|record %s/%d@%d (polled=%v)", r.Topic, r.Partition, r.Offset, polled))
+		}
+	}
+	h.state[r] = 2
+	h.mu.Unlock()
+}
+
+func judgeGroup(r *vh.Run, h *ghook, res *groupwl.Result, mode string) {
+	wit := func(d string) map[string]any {
+		return map[string]any{"side": "fetch(group)", "mode": mode, "plan": res.Plan, "detail": d}
+	}
+	h.mu.Lock()
+	probs := append([]string(nil), h.problems...)
+	unpaired := 0
+	for _, st := range h.state {
+		if st == 1 {
+			unpaired++
+		}
+	}
+	h.mu.Unlock()
+	for _, p := range probs {
+		i := strings.Index(p, "|")
+		r.Violation(p[:i], wit(p[i+1:]))
+	}
+	if len(res.Inconcl) > 0 {
+		r.Inconclusive(fmt.Sprintf("%s group: %v", mode, res.Inconcl))
+		return
+	}
+	if mode == "vt" && unpaired > 0 {
+		// all members are closed and the bubble is quiescent
+		r.Violation("fetch-record-buffered-never-unbuffered", wit(fmt.Sprintf("%d records passed to OnFetchRecordBuffered were never passed to OnFetchRecordUnbuffered (buffered=%d unbuffered=%d) after every member closed and the bubble quiesced", unpaired, h.nb.Load(), h.nu.Load())))
+	}
+	r.Count("group_fetch_hook_buffered", int(h.nb.Load()))
+	r.Count("group_fetch_hook_unbuffered", int(h.nu.Load()))
+	if h.nb.Load() > 0 && res.Rebalances >= 2 {
+		r.Distinct(fmt.Sprintf("g|%s|%s|%s|pr=%d", mode, res.Plan.Protocol, strings.Join(res.Plan.Churn, ","), res.Plan.PollRecords))
+	}
+}
+
 func genProd(r *vh.Run, stream string, i int, vt bool) prodwl.Plan {
 	rng := r.Rand(stream, i)
 	p := prodwl.Plan{
@@ -151,6 +229,37 @@ func TestCheck(t *testing.T) {
 		judgeFetch(r, res, "rt")
 		r.Eval(1)
 	})
+	nG := r.Pick(40, 1000)
+	vh.Parallel(nG, 8, func(i int) {
+		plan := groupwl.GenPlan(r.Rand("c14-g", i), uint64(r.Seed)<<20|uint64(i), false)
+		plan.Brokers = 3 // several sources => several deferred hook dispatches per poll
+		if plan.Partitions < 4 {
+			plan.Partitions = 6
+		}
+		h := &ghook{state: map[*kgo.Record]int{}}
+		plan.Hooks = []kgo.Hook{h}
+		res := groupwl.Run(plan, 60*time.Second)
+		judgeGroup(r, h, res, "rt")
+		r.Eval(1)
+	})
+	for i := 0; i < nVT/2; i++ {
+		plan := groupwl.GenPlan(r.Rand("c14-gvt", i), uint64(r.Seed)<<20|uint64(1<<19+i), true)
+		plan.Brokers = 3
+		if plan.Partitions < 4 {
+			plan.Partitions = 6
+		}
+		h := &ghook{state: map[*kgo.Record]int{}}
+		plan.Hooks = []kgo.Hook{h}
+		var res *groupwl.Result
+		e2e.Bubble(t, func() {
+			res = groupwl.Run(plan, 10*time.Minute)
+			e2e.Settle()
+		})
+		if res != nil {
+			judgeGroup(r, h, res, "vt")
+		}
+		r.Eval(1)
+	}
 	for i := 0; i < nVT; i++ {
 		if i%2 == 0 {
 			plan := genProd(r, "c14-pvt", 1<<19+i, true)
